@@ -148,8 +148,12 @@ def fault_sites(deck):
         sites.append(('surface-params:missing', si))
         sites.append(('surface-params:extra', si))
         sites.append(('surface:unknown-mnemonic', si))
+    live_u = reachable_universes(deck)
     for ci, c in enumerate(deck['cells']):
-        if c.get('like') is None and _facet_leaf(c['expr']) is not None:
+        # only cells the converter has to convert (a cell of a universe that
+        # nothing fills is dead input and is never looked at)
+        if c.get('like') is None and _facet_leaf(c['expr']) is not None \
+                and (c.get('u') or 0) in live_u:
             sites.append(('facet:index-too-large', ci))
     if deck.get('imp_cards') and len(deck['imp_cards']) >= 2:
         sites.append(('imp-cards:unequal-length', 0))
@@ -159,6 +163,33 @@ def fault_sites(deck):
         if len(pairs) >= 2:
             sites.append(('material:mixed-signs', mi))
     return sites
+
+
+def reachable_universes(deck):
+    """Universe 0 and every universe reached from it through FILL (incl.
+    FILL arrays), following only containers of non-zero importance."""
+    by_u = {}
+    for rank, c in enumerate(deck['cells']):
+        by_u.setdefault(c.get('u') or 0, []).append((rank, c))
+    seen = set()
+    todo = [0]
+    while todo:
+        u = todo.pop()
+        if u in seen:
+            continue
+        seen.add(u)
+        for rank, c in by_u.get(u, []):
+            f = c.get('fill')
+            if not f:
+                continue
+            if u == 0 and md.is_zero_importance(
+                    md.cell_importance(deck, rank, c)):
+                continue
+            subs = [f['u']] if f.get('univs') is None else list(f['univs'])
+            for s_ in subs:
+                if s_ and s_ not in seen:
+                    todo.append(s_)
+    return seen
 
 
 def _facet_leaf(expr):
